@@ -61,6 +61,13 @@ Roots ==
          B("Sub", tt, A), B("Sub", tt, N("Tup", << KI(0) >>)), Look(oo, "p"), Look(oo, "q") }
   \cup { N("Tup", << A, L >>), N("Tup", << A >>) }
   \cup NumLeaves \cup BoolLeaves
+  \* degenerate arities are legal trees (the evaluator and every mapper accept them): a sum or a
+  \* product of ONE operand in every operand position - no operator is written for it, but the
+  \* grouping of what is inside must survive
+  \cup UNION { { w, B("Power", w, L), B("Power", L, w), U("BitNot", w), N("Product", << L, w >>),
+                 N("Product", << w, L >>), B("Quotient", L, w), B("Remainder", w, L), N("Sum", << L, w >>),
+                 B("LShift", w, L), Cmp(w, "<", L) }
+               : w \in { N("Product", << A >>), N("Sum", << A >>) } }
   \* comparisons and 'not' as operands: Python chains a < b < c and reads 'not' below comparisons
   \* and arithmetic, so the generated text needs parentheses the pymbolic syntax does not
   \cup { Cmp(Cmp(x, "<", y), "<", z), Cmp(x, "<", Cmp(y, "<", z)), Cmp(Cmp(x, "==", y), "!=", bb),
